@@ -366,6 +366,9 @@ pub fn c10_variants(tier: &str, words: &[u32]) -> Vec<Variant> {
             vec![mm(id(B, 0), 1, State::Down)],
             vec![mm(id(A, 0), 0, State::Suspect)],
             vec![mm(id(A, 2), 3, State::Suspect)],
+            // a renewed identity of an address already known at a higher
+            // incarnation: the new record starts from what was told about it
+            vec![mm(id(C, 1), 0, State::Alive)],
         ];
         // Down at a lower incarnation than the current one is still Down
         a.self_rel = vec![(-1, State::Suspect), (0, State::Suspect), (1, State::Suspect), (0, State::Alive), (0, State::Down), (-1, State::Down)];
